@@ -80,15 +80,27 @@ def start(ctx):
   jobs = plan(ctx)
   if ctx.only_sid:
     jobs = [j for j in jobs if 'gen-%s-%s-n%d-s%d' % (j[1], j[0].replace('/', '_'), j[4], j[5]) == ctx.only_sid]
-  pool = mp.get_context('fork').Pool(processes=min(12, max(1, len(jobs))))
-  return pool, pool.map_async(run_source, jobs, chunksize=1)
+  import threading
+  from pv import proc
+  box = {}
+  def bg():
+    try:
+      box['res'] = list(proc.imap_unordered(run_source, jobs, procs=min(12, max(1, len(jobs)))))
+    except BaseException as e:  # pylint: disable=broad-except
+      box['err'] = e
+  th = threading.Thread(target=bg, daemon=True)
+  th.start()
+  return th, box
 
 
 def finish(ctx, handle):
-  pool, res = handle
-  recs = res.get(timeout=7200)
-  pool.close()
-  pool.join()
+  th, box = handle
+  th.join(7200)
+  if th.is_alive():
+    raise tlc.MachineryError('generator runs exceeded 7200 s')
+  if 'err' in box:
+    raise box['err']
+  recs = box['res']
   if not recs:
     return
   ctx.replayed += len(recs)
